@@ -21,6 +21,10 @@ CHECKS = {
   text="Construction-site and call-site consistency of every coordinate tuple in the evaluator (node, parent, parentref, path, ancestry derived from one container/key pair; key text only through the escaping routine with the path's own separator), immutability of handed-out path/ancestry objects, and inclusion of the parser's base-state special characters in the escape alphabet. Decides these necessary conditions on every path of the code; uniqueness of re-resolution is declined.",
   note="Trusted base: loop headers (enumerate/items/iteration) and subscripts give an element's key; YAMLPath '+' copies (checked).",
   technique="construction-site / call-site consistency analysis (derivation of node from container+key, reaching definitions), mutation-site classification, partial evaluation of the parser per character"),
+ "C12": dict(
+  text="The complete operator x haystack-kind x needle-kind decision table (270 cells) of Searches.search_matches is extracted by partial evaluation of its AST and compared cell by cell with an oracle table written from the documented rules; typed_value's boolean spellings and caught failures, exception escape, and the XOR truth table of each inversion predicate are decided structurally. Exhaustive over the finite kind lattice; Python's operator semantics and literal_eval's classification are the trusted base.",
+  note="Trusted base: Python comparison operators, ast.literal_eval's classification of text, re.compile/.search; bool is a subtype of int.",
+  technique="partial evaluation / decision-table extraction compared with an oracle table; truth-table evaluation of inversion predicates"),
 }
 
 NOT_BUILT = "check not built yet (framework under construction; will be claimed at clause level per DESIGN.md)"
